@@ -94,9 +94,9 @@ theorem C09_exceed_include (C : Cfg) (fuel : Nat) (s path : Bytes) (d : Defines)
   simp [preprocessStr, h]
 
 /-- resolving a usage at `resolve_depth > 64` is `ExceedRecursiveLimit` -/
-theorem C09_exceed_resolve (C : Cfg) (fuel : Nat) (inp : Input) (s path : Bytes) (x : Tree) (d : Defines) (sc : Bool)
+theorem C09_exceed_resolve (C : Cfg) (fuel : Nat) (inp : Input) (s path : Bytes) (x : Tree) (d : Defines) (ii sc : Bool)
     (rd id : Nat) (h : rd > recursiveLimit) :
-    resolveUsage C (fuel + 1) inp s path x d sc rd id = .error .exceedRecursiveLimit := by
+    resolveUsage C (fuel + 1) inp s path x d ii sc rd id = .error .exceedRecursiveLimit := by
   simp [resolveUsage, h]
 
 theorem C09_limit_is_64 : recursiveLimit = 64 := rfl
